@@ -15,6 +15,10 @@ P = {
          'invalid marker outside the admissible range; nucleationBarrier: R* >= Rmin, zero for dG <= 0, R* = 2*gamma/dG and G* = G_sphere*c/(4pi/3) when unclamped (modular: factors assumed to satisfy the proved identity); Zeldovich/incubation/rate signs and monotone incubation factor; '
          'cached factors follow every sequence (length <= 2) of gamma/gbEnergy/site changes; admissibility = validation; available sites = max(N0 - occupied, 0) per site class for every pair of site types.',
          'sign/monotonicity of edge and corner factors over the whole k range undecided (transcendental); negative clamped barrier on boundary-type sites is a known finding with replayed witness'),
+ 'C15': ('Real description classes on a symbolic aspect ratio: unit volume and requested aspect of the three semi-axes (cbrt axioms), needle/plate thermodynamic and kinetic factors equal the textbook spheroid surface and capacitance ratios computed from the axes the code itself returns, '
+         'value 1 at and below aspect 1, value at 1 = formula at 1 for the algebraic factors of every shape incl. cuboid, array call = scalar call entry-wise for symbolic length (float and int dtype) with the caller array unchanged, ShapeFactor wiring, '
+         'and the bisection loop of _findRcrit with an invariant (bracket ordered, sign change kept, midpoint, counter): every return is a root to the tolerance or the 100-iteration fallback.',
+         'monotonicity in aspect ratio and limits at 1+ of the transcendental factors undecided; spheroid closed forms trusted geometry'),
  'C19': ('testCondition of all six condition classes x both inequalities executed on a PrecipitateBase object with a symbolic history: reads the monitored value at pData.n of the model it is '
          'given, latch, interpolated crossing time within [t(n-1), t(n)] (NRA), reset; stop decision of PrecipitateBase.postProcess for every or/and mix of <= 3 conditions; solver-loop stop clause (C05); TTP calculator wiring.',
          'P, E <= 2; model sub-steps of postProcess are arbitrary callables'),
